@@ -43,12 +43,18 @@ DEP_MODES = ["existing-match", "existing-text-match", "existing-mismatch", "miss
 CARDS = [(None, 1), (1, None), (2, 3), (1, 1), (0, 2), (3, None), (None, 4), (2, 2)]
 
 
+# sibling pairs that are different (name, type) pairs / names, but look alike under a careless comparison
+NEAR_DUPS = [(("rec/ephys", "setup"), ("rec", "ephys/setup")), (("ab", "c"), ("a", "bc")), (("x", "T"), ("x ", "T")),
+             (("n", "t"), ("N", "t")), (("caf\u00e9", "t"), ("cafe\u0301", "t")), (("s", "t/u"), ("s/t", "u")),
+             (("1", "t"), ("01", "t"))]
+
+
 def gen_muts(rng, doc, n):
     secs, props = nodes_of(doc)
     muts = []
     for _ in range(n):
         kind = rng.choice(["share-id", "share-id-cross-kind", "clear-type", "clear-name", "dup-name", "dependency",
-                           "dependency", "card", "bad-values", "empty-name"])
+                           "dependency", "card", "bad-values", "empty-name", "near-dup-siblings"])
         if kind == "share-id" and secs:
             muts.append(["share-id", rng.choice(["sec", "prop"]) if props else "sec", rng.randrange(10 ** 6),
                          rng.randrange(10 ** 6)])
@@ -68,6 +74,8 @@ def gen_muts(rng, doc, n):
         elif kind == "bad-values" and props:
             muts.append(["bad-values", rng.randrange(len(props)),
                          rng.choice(["int", "float", "boolean", "date", "time", "datetime", "2-tuple"])])
+        elif kind == "near-dup-siblings":
+            muts.append(["near-dup-siblings", rng.randrange(10 ** 6), rng.randrange(len(NEAR_DUPS)), rng.random() < 0.3])
         elif kind == "empty-name" and (secs or props):
             muts.append(["empty-name", rng.choice(["sec", "prop"]) if props else "sec", rng.randrange(10 ** 6)])
     return muts
@@ -110,6 +118,17 @@ def apply_muts(doc, muts):
                     p.new_id(doc.id)
                 else:
                     p.new_id(secs[m[3] % len(secs)].id)
+            elif name == "near-dup-siblings":
+                cont = ([doc] + secs)[m[1] % (len(secs) + 1)]
+                (n1, t1), (n2, t2) = NEAR_DUPS[m[2]]
+                if any(x in cont.sections for x in (n1, n2)):
+                    continue
+                odml.Section(n1, t1, parent=cont, oid=oid())
+                odml.Section(n2, t2, parent=cont, oid=oid())
+                if m[3] and cont is not doc:
+                    for nm in (n1, n2):
+                        if nm not in cont.properties:
+                            odml.Property(nm, values=[1], parent=cont, oid=oid())
             elif name == "clear-type":
                 secs[m[1] % len(secs)].type = m[2]
             elif name == "clear-name":
